@@ -34,7 +34,9 @@ fn contexts(md: &MarkdownIt, r: &str) -> Result<Vec<(&'static str, Option<String
         let para = s.strip_prefix('a').and_then(|x| x.strip_suffix('b')).map(|x| x.to_string());
         v.push(("paragraph", para.clone()));
         let a = para.unwrap_or_default();
-        let norm = |x: &str| (md.normalize_link)(x);
+        // the expected destination is computed with the ENCODER (property C17, checked on its own), not with the parser's
+        // `normalize_link` field: a defect in that function must not cancel out on both sides of the comparison
+        let norm = |x: &str| markdown_it::common::mdurl::encode(x, markdown_it::common::mdurl::AsciiSet::from(crate::corr::url::DEFAULT_SAFE), true);
         // destination: decoded BEFORE normalisation -> compare normalised forms
         let t = md.parse(&format!("[x](</{}>)", r));
         v.push(("destination", first_link(&t).map(|l| l.url.clone()).map(|u| if u == norm(&format!("/{}", a)) { a.clone() } else { format!("<url {}>", u) })));
